@@ -35,7 +35,7 @@ def run(ctx):
     codec.add_c03_objects(ctx, defs)
     ctx.assumptions += ['buffer capacities: callers pass char[FIX8_MAX_FLD_LENGTH] (scaled 2048 -> 24) or char[MAX_MSGTYPE_FIELD_LEN=32]; inputs longer than the capacity are part of the space',
                         'isdigit is the "C" locale classification', 'allocation never fails']
-    ctx.solve(jobs=4)
+    ctx.solve(jobs=codec.JOBS)
     ctx.handle_failures(replay, kf)
     announce_known(ctx, kf, replay)
     return ctx.finish()
